@@ -121,10 +121,10 @@ def default_vals(cls, opts):
 
 def class_space(cls, tier, seed, maxdev=None):
     """All configurations of a class for a tier: list of dicts
-    {cls, opts, vals, kinds, ndev}. quick: <= 2 coordinates (options + parameters
+    {cls, opts, vals, kinds, ndev}. quick: <= 3 coordinates (options + parameters
     + constants) differ from the default call; thorough: the full product."""
     if maxdev is None:
-        maxdev = 2 if tier == "quick" else 99
+        maxdev = 3 if tier == "quick" else 99
     out = []
     olist = OPTS.get(cls, [])
     for ovals in itertools.product(*[o[2] for o in olist]):
